@@ -9,6 +9,7 @@ package main
 
 import (
 	"encoding/hex"
+	"encoding/json"
 	"fmt"
 	"go/types"
 	"os"
@@ -379,6 +380,11 @@ func c15(c *Ctx, mc MsgCase, aliased bool) {
 			}
 			mk := func(what string) func(val func(*Term) uint64) *Violation {
 				return func(val func(*Term) uint64) *Violation {
+					if os.Getenv("VF_DEBUG_PC") != "" {
+						js, _ := json.Marshal(h.g.Concretize(h.m, val))
+						fmt.Fprintln(os.Stderr, "MODEL MSG", string(js))
+						fmt.Fprintln(os.Stderr, "MODEL INPUT", hexOf(input(val)), "len", val(in.Len), "wlen", val(w.Len))
+					}
 					return &Violation{Detail: what, Model: map[string]any{"input_hex": hexOf(input(val))}, Replay: &ReplayReq{Steps: steps(val), Judge: judge}}
 				}
 			}
